@@ -163,6 +163,35 @@ def nesting(prog):
     return m
 
 
+class TwoAccSlimGrammar(Grammar):
+    def leaves(self, loop_depth):
+        return [("L", "acc1", ("x", "y")), ("L", "acc1", ("y", "x")), ("L", "acc2", ("x",)), ("CALL",)]
+
+
+def accs_of(prog):
+    s = set()
+    for st in prog:
+        if st[0] == "L":
+            s.add(st[1])
+        elif st[0] in ("FOR", "CFOR", "WHILE", "FORI"):
+            s |= accs_of(st[1])
+        elif st[0] in ("IF", "IFP", "IFR"):
+            s |= accs_of(st[1]) | (accs_of(st[2]) if st[2] else set())
+    return s
+
+
+_SLIM2 = {}
+
+
+def slim_two_acc_programs(nodes):
+    """two accelerators, an effecting call and control flow at nesting depth 1, one node deeper than the full two-accelerator grammar reaches:
+    the state of one accelerator across a region that configures the other one"""
+    if nodes not in _SLIM2:
+        g = TwoAccSlimGrammar(accs=("acc1", "acc2"), calls=("CALL",), ifp=False, max_depth=1)
+        _SLIM2[nodes] = [p for p in g.seqs(nodes, 1, 0) if has_launch(p) and accs_of(p) == {"acc1", "acc2"} and count_nodes(p, "CALL") >= 1]
+    return _SLIM2[nodes]
+
+
 _SLIM = {}
 
 
